@@ -60,6 +60,9 @@ MODULES = ["Spydr.Verilog.Model", "Spydr.Verilog.ModelElab", "Spydr.Verilog.Mode
            "Spydr.Verilog.RoundTripLeafJ", "Spydr.Verilog.FragmentReport",
            "Spydr.Verilog.RoundTripHierA", "Spydr.Verilog.RoundTripHierB", "Spydr.Verilog.RoundTripHierC",
            "Spydr.Verilog.RoundTripHierD", "Spydr.Verilog.RoundTripHierE",
+           "Spydr.Verilog.RoundTripHierF", "Spydr.Verilog.RoundTripHierG", "Spydr.Verilog.RoundTripHierH",
+           "Spydr.Verilog.RoundTripHierI",
+           "Spydr.Verilog.WFWiresA", "Spydr.Verilog.WFWiresB", "Spydr.Verilog.WFWiresC",
            "Spydr.Verilog.WFBase", "Spydr.Verilog.WFPort", "Spydr.Verilog.WFEval", "Spydr.Verilog.WFHeader",
            "Spydr.Verilog.WFDecl", "Spydr.Verilog.WFInst", "Spydr.Verilog.WFDesign", "Spydr.Verilog.WFStruct"]
 THEOREMS = {
@@ -73,7 +76,8 @@ THEOREMS = {
             "Spydr.Verilog.Elab.instantiate_named", "Spydr.Verilog.Elab.instances_fold", "Spydr.Verilog.Elab.header_fold",
             "Spydr.Verilog.Elab.wires_fold", "Spydr.Verilog.Elab.elabModule_frag", "Spydr.Verilog.Elab.elabDesign_frag",
             "Spydr.Verilog.Elab.exDesign_frag",
-            "Spydr.Verilog.Elab.regrow_wf", "Spydr.Verilog.Elab.createOrUpdateCable_wf", "Spydr.Verilog.Elab.createOrUpdatePort_wf", "Spydr.Verilog.Elab.reorderPorts_wf", "Spydr.Verilog.Elab.portDecl_wf", "Spydr.Verilog.Elab.connectInstRow_wf", "Spydr.Verilog.Elab.instantiate_wf", "Spydr.Verilog.Elab.positional_wf", "Spydr.Verilog.Elab.assignStmt_wf", "Spydr.Verilog.Elab.elabModule_wf", "Spydr.Verilog.Elab.elabDesign_wf", "Spydr.Verilog.Elab.readV_wf", "Spydr.Verilog.Elab.structWF_iff", "Spydr.Verilog.Elab.reader_structWF", "Spydr.Verilog.Elab.elab_structWF", "Spydr.Verilog.Elab.exNet_structWF", "Spydr.Verilog.Elab.pending_not_emptied"],
+            "Spydr.Verilog.Elab.regrow_wf", "Spydr.Verilog.Elab.createOrUpdateCable_wf", "Spydr.Verilog.Elab.createOrUpdatePort_wf", "Spydr.Verilog.Elab.reorderPorts_wf", "Spydr.Verilog.Elab.portDecl_wf", "Spydr.Verilog.Elab.connectInstRow_wf", "Spydr.Verilog.Elab.instantiate_wf", "Spydr.Verilog.Elab.positional_wf", "Spydr.Verilog.Elab.assignStmt_wf", "Spydr.Verilog.Elab.elabModule_wf", "Spydr.Verilog.Elab.elabDesign_wf", "Spydr.Verilog.Elab.readV_wf", "Spydr.Verilog.Elab.structWF_iff", "Spydr.Verilog.Elab.reader_structWF", "Spydr.Verilog.Elab.elab_structWF", "Spydr.Verilog.Elab.exNet_structWF", "Spydr.Verilog.Elab.pending_not_emptied",
+            "Spydr.Verilog.Elab.createOrUpdateCable_ww", "Spydr.Verilog.Elab.elabDesign_ww", "Spydr.Verilog.Elab.reader_wiresWF", "Spydr.Verilog.Elab.elab_wiresWF", "Spydr.Verilog.Elab.exNet_wiresWF", "Spydr.Verilog.Elab.unnamed_port_on_declared"],
     "C04": ["Spydr.Verilog.emit_eval", "Spydr.Verilog.emit_eval_spec", "Spydr.Verilog.decl_range_roundtrip",
             "Spydr.Verilog.alias_header_roundtrip", "Spydr.Verilog.assign_regen", "Spydr.Verilog.assign_regen_all",
             "Spydr.Verilog.write_order_defined", "Spydr.Verilog.write_order_total", "Spydr.Verilog.visit_order_defined",
@@ -95,7 +99,9 @@ THEOREMS = {
             "Spydr.Verilog.Elab.declStepL_run", "Spydr.Verilog.Elab.hdrStepL_run", "Spydr.Verilog.Elab.elabModule_leaf", "Spydr.Verilog.Elab.elabDesign_bb", "Spydr.Verilog.Elab.exBB_builds", "Spydr.Verilog.Elab.foldLeaves_view", "Spydr.Verilog.Elab.buildLeaf_iface", "Spydr.Verilog.Elab.foldLeaves_iface", "Spydr.Verilog.Elab.c04_view_bb", "Spydr.Verilog.Elab.c04_ast_bb", "Spydr.Verilog.Elab.exNetBB_frag",
             "Spydr.Verilog.Elab.primBodyGo_ports", "Spydr.Verilog.Elab.moduleP_leaf", "Spydr.Verilog.Elab.topGo_leaf", "Spydr.Verilog.Elab.preprocess_keep", "Spydr.Verilog.Elab.parse_bb", "Spydr.Verilog.Elab.moduleText_leaf", "Spydr.Verilog.Elab.composeV_text_bb", "Spydr.Verilog.Elab.chars_leafP", "Spydr.Verilog.Elab.toks_leafP", "Spydr.Verilog.Elab.chars_filePbb", "Spydr.Verilog.Elab.c04_text_bb", "Spydr.Verilog.Elab.exNetBB_struct", "Spydr.Verilog.Elab.exNetBB_roundtrip",
             "Spydr.Verilog.Elab.buildBB_low", "Spydr.Verilog.Elab.c04_full_ast", "Spydr.Verilog.Elab.c04_full_bb", "Spydr.Verilog.Elab.exNetBB_full", "Spydr.Verilog.Elab.nobb_row_shrinks", "Spydr.Verilog.Elab.exNetRB_full",
-            "Spydr.Verilog.Elab.instantiate_firstG", "Spydr.Verilog.Elab.instStep2_runG", "Spydr.Verilog.Elab.insts_foldG", "Spydr.Verilog.Elab.declStepA_run", "Spydr.Verilog.Elab.wire_foldG", "Spydr.Verilog.Elab.elabModule_lateW", "Spydr.Verilog.Elab.late_fold", "Spydr.Verilog.Elab.elabDesign_hier", "Spydr.Verilog.Elab.exHier_builds"],
+            "Spydr.Verilog.Elab.instantiate_firstG", "Spydr.Verilog.Elab.instStep2_runG", "Spydr.Verilog.Elab.insts_foldG", "Spydr.Verilog.Elab.declStepA_run", "Spydr.Verilog.Elab.wire_foldG", "Spydr.Verilog.Elab.elabModule_lateW", "Spydr.Verilog.Elab.late_fold", "Spydr.Verilog.Elab.elabDesign_hier", "Spydr.Verilog.Elab.exHier_builds",
+            "Spydr.Verilog.Elab.late_facts", "Spydr.Verilog.Elab.view_core", "Spydr.Verilog.Elab.buildLateW_view", "Spydr.Verilog.Elab.hier_fold", "Spydr.Verilog.Elab.c04_view_hier", "Spydr.Verilog.Elab.c04_ast_hier", "Spydr.Verilog.Elab.exNetH_frag",
+            "Spydr.Verilog.Elab.topGo_work", "Spydr.Verilog.Elab.parse_hier", "Spydr.Verilog.Elab.composeV_text_hier", "Spydr.Verilog.Elab.chars_filePH", "Spydr.Verilog.Elab.c04_text_hier", "Spydr.Verilog.Elab.exNetH_struct", "Spydr.Verilog.Elab.exNetH_roundtrip"],
 }
 
 
